@@ -930,6 +930,38 @@ def _length_domain(ctx, rule):
     return c11.r5_length_domain(ctx, rule)
 
 
+def r18_popped_level_read_once(ctx, rule):
+    """Backtracking in GuessStructure.next_guess lowers the level field of the element it is scanning (`last_item[1] = ...`) and
+    then pops that very element (`element = self.parse_tree.pop()`): whatever the refill budget needs from a popped element's
+    level must have been taken BEFORE the scan touched it.  Inside the backtracking loop the level `[1]` of a name that the
+    loop re-binds to the popped element is therefore never read (the reference adds the level of the element that is NEXT to be
+    scanned, before scanning it).  Seed C11-k moved the bookkeeping to the loop head and added `element[1]` there: from the
+    second pass on that is the lowered level, the budget is too small, and strings are emitted at a level that is not theirs."""
+    q = GS + 'next_guess'
+    fn = ctx.fn(q)
+    loops = [n for n in fn.body if isinstance(n, ast.While) and 'parse_tree' in U(n.test)]
+    if not ctx.floor(rule, q, len(loops), 1, 'backtracking loops over self.parse_tree'):
+        return
+    lp = loops[0]
+    popped = {s_.targets[0].id for s_ in walk_stmts(lp.body) if isinstance(s_, ast.Assign) and len(s_.targets) == 1
+              and isinstance(s_.targets[0], ast.Name) and isinstance(s_.value, ast.Call) and U(s_.value.func).endswith('parse_tree.pop')}
+    scanned_written = any(isinstance(n, ast.Subscript) and isinstance(n.ctx, ast.Store) and const(n.slice) == 1 for n in ast.walk(lp))
+    if not popped or not scanned_written:
+        ctx.unk(rule, q, 'the backtracking loop does not pop into a name / does not lower a level in place: shape not recognised')
+        return
+    bad = False
+    for n in ast.walk(lp):
+        if isinstance(n, ast.Subscript) and isinstance(n.ctx, ast.Load) and isinstance(n.value, ast.Name) and n.value.id in popped \
+                and const(n.slice) == 1:
+            bad = True
+            ctx.bad(rule, q, 'level of the popped element read inside the backtracking loop: %s[1]' % n.value.id,
+                    'the popped element is the one the scan has just walked down to a lower level, so its [1] is no longer the level it '
+                    'had in the guess that was emitted: a budget built from it is too small and the refilled guess falls short of the '
+                    'target level (emitted at the wrong level, while the right strings behind that branch are never produced)', None, n)
+    if not bad:
+        ctx.ok(rule, q, 'the level of a popped element is not read after the scan lowered it', {'popped_into': sorted(popped)})
+
+
 def r11_generator_state_per_object(ctx, rule):
     """Cursor, parse tree and cache belong to one generator / one optimizer: no OMEN class keeps a mutable container at class level
     that its methods change in place."""
@@ -946,7 +978,7 @@ def _omen_reader_strip(ctx, rule):
 
 def rules(tier):
     return [('C10.R1', r1_copy_discipline), ('C10.R2', r2_memo_key), ('C10.R3', r3_sibling_constructions), ('C10.R4', r4_exact_last_transition),
-            ('C10.R5', r5_sibling_cursor_advance), ('C10.R6', r6_model_immutable), ('C10.R7', r7_prune_discipline), ('C10.R8', r8_guess_from_tree), ('C10.R9', r9_level_cursor_domain), ('C10.R10', r10_cache_key_agreement), ('C10.R11', r11_generator_state_per_object), ('C10.R12', r12_hit_implies_stored), ('C10.R13', r13_window_slices), ('C10.R14', r14_zero_budget_is_valid), ('C10.R15', _omen_reader_strip), ('C10.R16', r16_no_shared_defaults), ('C10.R17', _length_domain)]
+            ('C10.R5', r5_sibling_cursor_advance), ('C10.R6', r6_model_immutable), ('C10.R7', r7_prune_discipline), ('C10.R8', r8_guess_from_tree), ('C10.R9', r9_level_cursor_domain), ('C10.R10', r10_cache_key_agreement), ('C10.R11', r11_generator_state_per_object), ('C10.R12', r12_hit_implies_stored), ('C10.R13', r13_window_slices), ('C10.R14', r14_zero_budget_is_valid), ('C10.R15', _omen_reader_strip), ('C10.R16', r16_no_shared_defaults), ('C10.R17', _length_domain), ('C10.R18', r18_popped_level_read_once)]
 
 
 META = {
